@@ -4310,6 +4310,9 @@ async fn handle_connected_state_no_dtls(
                         _ = &mut rtcp_loop => {
                             if let Some(inner) = inner_weak.upgrade() {
                                 propagate_sctp_close_reason(&inner);
+                                if !is_ice_failed_or_closed(*ice_state_rx.borrow()) {
+                                    inner.report_transport_ended();
+                                }
                                 #[cfg(rustrtc_verif)]
                                 inner.vemit("loops_done", "nodtls");
                             }
@@ -4445,6 +4448,9 @@ async fn handle_connected_state(
                                 tokio::select! {
                                     _ = &mut rtcp_loop => {
                                         propagate_sctp_close_reason(&inner);
+                                        if !is_ice_failed_or_closed(*ice_state_rx.borrow()) {
+                                            inner.report_transport_ended();
+                                        }
                                         #[cfg(rustrtc_verif)]
                                         inner.vemit("loops_done", "conn");
                                         break;
@@ -4546,6 +4552,9 @@ async fn handle_connected_state(
                                 tokio::select! {
                                     _ = &mut rtcp_loop => {
                                         propagate_sctp_close_reason(&inner);
+                                        if !is_ice_failed_or_closed(*ice_state_rx.borrow()) {
+                                            inner.report_transport_ended();
+                                        }
                                         #[cfg(rustrtc_verif)]
                                         inner.vemit("loops_done", "connx");
                                         break;
@@ -4673,6 +4682,21 @@ impl PeerConnectionInner {
                 true
             }
         });
+    }
+
+    /// The transport loops (SCTP runner, RTCP reader, ...) have ended while the
+    /// connection was up: it is no longer usable. Report that instead of
+    /// leaving the state at `Connected`.
+    fn report_transport_ended(&self) {
+        let _ = self.disconnect_reason.send_if_modified(|cur| {
+            if cur.is_none() {
+                *cur = Some(DisconnectReason::Unknown("transport loops ended".into()));
+                true
+            } else {
+                false
+            }
+        });
+        self.publish_peer_state(PeerConnectionState::Disconnected);
     }
 
     /// Track a spawned task so it can be aborted on close. Only meant for
